@@ -21,12 +21,14 @@ func init() {
 			"(layout-agreement) every reader and writer of the in-memory / wire entry layout (Table.Put, Get, get, GetRaw, GetTTL, GetLastAccess, Delete, UpdateTTL, Entry.Encode, Entry.Decode) advances through the same cumulative offsets 1, 1+K, 9+K, 17+K, 25+K, 29+K, 29+K+V, uses 64-bit accessors at the three 8-byte fields and the 32-bit accessor at the value length, and MetadataLength equals the fixed part (29); " +
 			"(pack-agreement) table.Encode ships memory[:offset] and every field of Pack, and table.Decode restores every field and memory[:offset]; " +
 			"(size-boundaries) a key is rejected iff len(key) >= MaxKeyLength (a one-byte length prefix) before it is stored, an entry iff it does not fit a table (shared with C11.size-boundary-agreement), a table is full iff inuse+offset >= allocated; " +
+			"(validate-before-replicate) in the synchronous write path the engine's size limits are enforced before the entry is shipped to the backups (violated on the pinned tree and recorded as known finding D19); " +
 			"(put-does-not-retain) shared with C18: queued pipeline commands own their bytes.",
 		Run: func(r *core.Run) {
 			c17TypeTables(r)
 			c17Layout(r)
 			c17Pack(r)
 			c17SizeBoundaries(r)
+			c17ValidateBeforeReplicate(r)
 			kvSizeBoundaryAgreement(r)
 			putDoesNotRetain(r)
 		},
